@@ -21,11 +21,12 @@ from proof_generation.metamath.converter.converter import MetamathConverter
 from proof_generation.metamath.parser import parse_database
 
 
-class Stub:
-    """what _import_proof touches on self: the parsed database (after the D12 repair)"""
-
-    def __init__(self, floats):
-        self.parsed = Database(tuple(FloatingStatement(l, (Application('#Pattern'), Metavariable(v))) for l, v in floats))
+def Stub(floats):
+    """a converter object that has not run its constructor (no database conversion): _import_proof and whatever private methods
+    it delegates to only look at self.parsed"""
+    obj = object.__new__(MetamathConverter)
+    obj.parsed = Database(tuple(FloatingStatement(l, (Application('#Pattern'), Metavariable(v))) for l, v in floats))
+    return obj
 
 
 def term_of(vars_):
